@@ -308,5 +308,19 @@ def check(tm, options, path, solution=None, complete=True, n_probes=0, screening
                              {"frame": j, "how": how, "times": [len(tj), len(got_t)], "dt_records": [len(dj), len(gdt)]})
                     if st != want_steps[j]:
                         viol("loaded_frame_is_another_step", "loaded_frame_is_another_step", {"frame": j, "how": how, "step": st, "want": want_steps[j]})
+                    # what the loaded object reports for this frame is what the file holds under this frame (time-dependent drives
+                    # included: the applied potential and epsilon of step s, not those of another step)
+                    if j < len(frames):
+                        for nm_, arr_ in frames[j]["arrays"].items():
+                            got_ = getattr(sj.tdgl_data, nm_, None)
+                            if got_ is None:
+                                continue
+                            cnt("loaded_frame_content_checks")
+                            got_ = np.asarray(got_)
+                            if got_.shape != arr_.shape or not np.array_equal(got_, arr_, equal_nan=True):
+                                viol("loaded_frame_content_ne_file", "loaded_frame_content_ne_file",
+                                     {"frame": j, "how": how, "dataset": nm_, "step": want_steps[j],
+                                      "max_abs_diff": float(np.max(np.abs(got_ - arr_))) if got_.shape == arr_.shape else None})
+                                break
             solution.solve_step = last
     return V, C
